@@ -14,6 +14,7 @@ from ..world import BASE
 
 LEVEL = "model_checking"
 PROP = "C17"
+ST_TUNER_TIME = "st_tuner_time"
 
 EXTRA_ALPHABET = [1.5, 2, float("nan"), float("inf"), float("-inf"), "txt", True, -3, 0.1 + 0.2, "with,comma \"q\"", 7.25, False]
 
@@ -73,6 +74,10 @@ def build_factory(cfg):
                 d["x"] = EXTRA_ALPHABET[(t * 4 + level * 3 + run) % len(EXTRA_ALPHABET)]
                 if (t + level) % 3 == 0:
                     d["y"] = EXTRA_ALPHABET[(t + level * 5) % len(EXTRA_ALPHABET)]   # a metric that is not always reported
+            if cfg.get("own_time"):
+                # the backend stamps the tuner time itself (as the simulator backend does): the stamps of results of different
+                # trials are then not increasing in delivery order
+                d[ST_TUNER_TIME] = 10.0 * level + 0.37 * (7 - t) + 3.0 * run
             return d
         R_job = R + 2 if cfg["kind"] == "pbt" else R
         spec = ScriptSpec(None, R_job, metrics=info["metrics"], max_resource_attr=info["mra"], checkpointing=True,
@@ -254,6 +259,12 @@ def check_factory(cfg):
                     er = load_experiment_result_module()
                     exp = er.load_experiment(tuner.name, download_if_not_found=False)
                     rvals = [(r["trial_id"], r[mname]) for r in rows if mname in r and is_num(r[mname]) and not (isinstance(r[mname], float) and math.isnan(r[mname]))]
+                    if exp.results is not None and mi == 0:
+                        got_rows = [(int(a), b) for a, b in zip(exp.results["trial_id"], exp.results[ST_TUNER_TIME])]
+                        want_rows = [(int(r["trial_id"]), r[ST_TUNER_TIME]) for r in rows]
+                        if len(got_rows) != len(want_rows) or any(a[0] != b[0] or not same(a[1], b[1]) for a, b in zip(got_rows, want_rows)):
+                            v.append(("log:loaded-table-differs", f"rows (trial_id, time stamp) of the loaded experiment {got_rows[:8]} != "
+                                                                  f"delivered order {want_rows[:8]}"))
                     if rvals and exp.results is not None:
                         ropt = min(x for _, x in rvals) if mode == "min" else max(x for _, x in rvals)
                         try:
@@ -305,6 +316,7 @@ def configs(tier, seed):
                                 if (i + seed) % (16 if tier == "quick" else 3) != 0:
                                     continue
                                 out.append(dict(kind=kind, variant=variant, extra=extra, mode=mode, interval=interval, W=W, R=3, mra=(i % 3 != 0),
+                                                own_time=(i % 2 == 0),
                                                 seed=seed, profile=prof, F=1, stop={"max_num_trials_started": 4},
                                                 wait=(pi % 2 == 0), k=1 if tier == "quick" else 2,
                                                 max_exec=120 if tier == "quick" else 2000))
